@@ -75,6 +75,22 @@ structure Inv (s : State) : Prop where
   podsNodup : (Tbl.keys s.pods).Nodup
   vPodsNodup : (Tbl.keys s.vPods).Nodup
 
+/-- the part of the invariant that survives the loss of the process' memory: API truth is well formed and every live
+    bound pod's addresses have their object in the store (its key, its uid, a configured address).  A restart rebuilds
+    the full invariant from it (`inv_restart_of_pinv`). -/
+structure PInv (s : State) : Prop where
+  podsWF : ∀ id q, Tbl.get s.pods id = some q → q.id = id ∧ q.uid ≠ 0 ∧ q.uid < s.nextUid ∧ WFNames q
+  uidUniq : ∀ id1 id2 q1 q2, Tbl.get s.pods id1 = some q1 → Tbl.get s.pods id2 = some q2 → q1.uid = q2.uid → id1 = id2
+  uidPos : 0 < s.nextUid
+  podsNodup : (Tbl.keys s.pods).Nodup
+  storeOwn : ∀ q, LiveBound s.pods q → ∀ hd, hd ∈ q.handed →
+    ∃ r, Tbl.get s.store hd.ip = some r ∧ r.key = keyOf q ∧ r.uid = q.uid ∧ configured s.pools hd.ip = true
+
+theorem Inv.toPInv {s : State} (h : Inv s) : PInv s :=
+  ⟨h.podsWF, h.uidUniq, h.uidPos, h.podsNodup, fun q hq hd hm => by
+    obtain ⟨r, h1, h2, h3⟩ := h.safe.own q hq hd hm
+    exact ⟨r, by rw [h.coh.agree]; exact h1, h2, h3, h.coh.allocConf _ r h1⟩⟩
+
 /-- the side conditions of the moves (decidable, evaluated in the state the move starts from) - the scope the
     property itself states:
     * `createPod`: non-empty namespace, pod name and owner name (what the API server guarantees);
